@@ -183,6 +183,10 @@ def _big_strings(ctx, su, n_random):
     for pos in range(22):
         for fc in foreign:
             strs.add(valid[:pos] + fc + valid[pos + 1:])
+    # a valid short string with the decorations that uuid.UUID() tolerates for the usual form
+    for deco in (valid[:11] + '-' + valid[11:], '{' + valid + '}', 'urn:uuid:' + valid, 'urn:' + valid, 'uuid:' + valid,
+                 '-' + valid, valid + '-', valid[:8] + '-' + valid[8:12] + '-' + valid[12:]):
+        strs.add(deco)
     for _ in range(n_random):
         k = ctx.rnd.random()
         if k < 0.6:
